@@ -270,6 +270,17 @@ mut("c15-mirror", "C15", "region.go", "ret[len(rr)-i-1] = r.Complement()", "ret[
 mut("c19-regexp-pred", "C19", "feature.go", "\t\t\tfor _, v := range vv {\n\t\t\t\tif re.MatchString(v) {", "\t\t\tfor _, v := range vv {\n\t\t\t\tif re.FindString(v) != \"\" {", ["REGEXP-PRED|gts.Qualifier"])
 mut("c19-source-prefix", "C19", "feature.go", "\tfor i < len(ff) && ff[i].Key == \"source\" {\n\t\ti++\n\t}", "\tif len(ff) > 0 && ff[0].Key == \"source\" {\n\t\ti = 1\n\t}", ["SOURCE-PREFIX|gts.FeatureSlice.Insert"])
 
+# ---------------------------------------------------------------- order-type interpretation of the region algebra (C09, C15)
+mut("c09-minimize-merge-no-max", "C09", "region.go", "ss[i] = Segment{Min(l[0], r[0]), Max(l[1], r[1])}", "ss[i] = Segment{l[0], r[1]}", ["MINIMIZE|gts.Minimize"])
+mut("c09-minimize-abutting", "C09", "region.go", "\t\tif l[1] < r[0] {\n\t\t\ti++", "\t\tif l[1] <= r[0] {\n\t\t\ti++", ["MINIMIZE|gts.Minimize"])
+mut("c09-minimize-skip-after-merge", "C09", "region.go", "\t\t\tcopy(ss[i+1:], ss[i+2:])\n\t\t\tss = ss[:len(ss)-1]\n", "\t\t\tcopy(ss[i+1:], ss[i+2:])\n\t\t\tss = ss[:len(ss)-1]\n\t\t\ti++\n", ["MINIMIZE|gts.Minimize"])
+mut("c09-flatten-no-orient", "C09", "region.go", "\t\tif s[1] < s[0] {\n\t\t\ts = Segment{s[1], s[0]}\n\t\t}\n", "", ["MINIMIZE|gts.Minimize"])
+mut("c09-invert-empty-gap", "C09", "region.go", "\t\tif start != s[0] {\n\t\t\trr = append(rr, Segment{start, s[0]})\n\t\t}", "\t\trr = append(rr, Segment{start, s[0]})", ["INVERT|gts.InvertLinear"])
+mut("c09-invert-tail-dropped", "C09", "region.go", "\tif start != n {\n\t\trr = append(rr, Segment{start, n})\n\t}\n", "", ["INVERT|gts.InvertLinear"])
+mut("c09-invertcircular-guard", "C09", "region.go", "if ss[0][0] == 0 || ss[len(ss)-1][1] == n {", "if ss[0][0] == 0 && ss[len(ss)-1][1] == n {", ["INVERT|gts.InvertCircular"])
+mut("c09-silent-minimize-rewrite", "C09", "region.go", "\t\tif l[1] < r[0] {\n\t\t\ti++\n\t\t} else {", "\t\tif r[0] > l[1] {\n\t\t\ti += 1\n\t\t} else {", silent=True)
+mut("c15-minimize-merge-no-max", "C15", "region.go", "ss[i] = Segment{Min(l[0], r[0]), Max(l[1], r[1])}", "ss[i] = Segment{l[0], r[1]}", ["MINIMIZE|gts.Minimize"])
+
 if __name__ == "__main__":
     here = os.path.dirname(os.path.abspath(__file__))
     ids = [m["id"] for m in M]
